@@ -99,6 +99,17 @@ class ValueMachine(Machine):
         vs[off] = (size, val)
 
     def load(self, ptr, ty, loc, align=0):
+        if isinstance(ptr, Ptr) and is_int(ptr.off) and ty.get('k') == 'vec' and ptr.obj.fields is not None:
+            w = getattr(ptr.obj, 'window', None)
+            size = ty.get('bytes', 8)
+            if w is not None and ptr.off < w < ptr.off + size:
+                # a vector access across the end of the tracked header window: lane by lane (each lane is on one side)
+                n = ty['lanes']
+                et = ty['elt']
+                es = et.get('bits', 64) // 8
+                ety = dict(et, bytes=es)
+                lanes = [self.load(Ptr(ptr.obj, ptr.off + j * es, ptr.via, ptr.slack), ety, loc, 0) for j in range(n)]
+                return Vec(lanes, et.get('bits', 64), et.get('k') == 'fp')
         if isinstance(ptr, Ptr) and is_int(ptr.off):
             size = ty.get('bytes', 8)
             if self._is_data_loc(ptr.obj, ptr.off, size):
@@ -577,9 +588,28 @@ class ValueMachine(Machine):
     def call_external(self, name, args, i, fr):
         from .machine import ASM_MODELS
         if name in ASM_MODELS and all(isinstance(a, Ptr) and is_int(a.off) for a in args):
-            # assembly kernel: arithmetic not modelled; every value written is an uninterpreted function of everything read
-            reads = []
             f64 = {'k': 'fp', 'bits': 64, 'bytes': 8, 's': 'double'}
+            # assembly kernel: its semantics are lifted from the .s text (spqa.asmsem); the writes are buffered so that a unit
+            # outside the instruction catalogue falls back to the uninterpreted model below without partial effects
+            from . import asmsem
+            prog = asmsem.program(self.lib, name) if getattr(self, 'lift_asm', True) else None
+            if prog is not None:
+                pending = []
+                try:
+                    asmsem.execute(
+                        prog,
+                        lambda ai, off: (_ for _ in ()).throw(asmsem.NotLifted('load after store')) if any(
+                            args[a2].obj is args[ai].obj and args[a2].off + o2 == args[ai].off + off for a2, o2, _ in pending)
+                        else self.load(Ptr(args[ai].obj, args[ai].off + off, args[ai].via, args[ai].slack), f64, i.loc),
+                        lambda ai, off, v: pending.append((ai, off, v)))
+                except (asmsem.NotLifted, IndexError, KeyError):
+                    pending = None
+                if pending is not None:
+                    for ai, off, v in pending:
+                        self.store(Ptr(args[ai].obj, args[ai].off + off, args[ai].via, args[ai].slack), v, f64, i.loc)
+                    return None
+            # arithmetic not modelled: every value written is an uninterpreted function of everything read
+            reads = []
             for (ai, kind, off, size) in ASM_MODELS[name]:
                 p = args[ai]
                 if kind == 'R':
